@@ -108,11 +108,15 @@ class ModeBasis(object):
             The created dictionary.
         '''
         if self.is_sparse:
+            # from_dict() reads these arrays as a CSC matrix, whatever sparse format is stored here
+            # (the transformation_matrix setter accepts any).
+            T = scipy.sparse.csc_matrix(self._transformation_matrix)
+
             transformation_matrix = {
-                'data': self._transformation_matrix.data,
-                'indices': self._transformation_matrix.indices,
-                'indptr': self._transformation_matrix.indptr,
-                'shape': list(self._transformation_matrix.shape)
+                'data': T.data,
+                'indices': T.indices,
+                'indptr': T.indptr,
+                'shape': list(T.shape)
             }
         else:
             transformation_matrix = self.transformation_matrix
